@@ -24,6 +24,12 @@ CHECKS = {
     "C20": ("exploration", "runtime monitoring: exhaustive pairwise identity oracle over a bounded vocabulary (canonical-key model vs ==, hash, set/DNSRRSet/DNSCache behaviour)",
             "All ordered pairs of ~3000 record/question objects (thorough) are compared against an independent canonical key: equality, hash congruence, symmetry and membership behaviour in set, DNSRRSet and DNSCache.",
             "Vocabulary is bounded; identity code has no size-dependent branches.", "2/C20"),
+    "C05": ("exploration", "runtime monitoring: reference-model oracle (RFC 6762 s.10 dict model) over every public lookup path after each step of generated histories; structural invariant at quiescent points",
+            "Real RecordManager/DNSCache/engine purge are driven by generated and bounded-exhaustive histories under a virtual clock; after every step all lookup paths must agree with each other and with the model, purges must report exactly the model's expired set.",
+            "Model semantics for a record repeated in one datagram: last one wins. Virtual clock is exact.", "2/C05"),
+    "C06": ("exploration", "runtime monitoring: listener-contract oracle with cache snapshots taken inside the real callbacks, under listener churn",
+            "Spy RecordUpdateListeners record call order/arguments and snapshot the cache through public lookups inside each callback; compared with the model's expected (new, previous) list, mid state and final state for every datagram of generated histories.",
+            "Only listeners registered at datagram start and not removed during it are constrained.", "2/C06"),
 }
 
 NOT_YET = {}
